@@ -528,6 +528,11 @@ def run(ctx):
                 except Exception:
                     small = P
                 nshrunk += 1
+                if small is not P:
+                    for w2, s2 in judge(work(spine.to_src(small)), None):
+                        if same(s2, sig):
+                            what = w2       # describe the shrunk program, not the original one
+                            break
             ctx.fail(what + " | program: " + spine.to_src(small).replace("\n", " "),
                      {"program": small, "src": spine.to_src(small)}, sig)
     ctx.obligation("correspondence: Lean BN model = real PGM (CPTs, OrCPTs, marginals) on %d exported programs" % ncorr,
